@@ -55,12 +55,17 @@ TYPE_TO_JSON_TYPE = {
 }
 
 
+def _type_name(cls: type) -> str:
+    try:
+        return str(TYPE_TO_JSON_TYPE[cls])
+    except (KeyError, TypeError):
+        # not a JSON type, e.g. bytes, tuple or a subclass of a primitive type
+        return getattr(cls, "__name__", str(cls))
+
+
 def bad_type(data: Any, *expected: type) -> ValidationError:
-    msgs = [
-        f"expected type {JsonType.from_type(tp)},"
-        f" found {JsonType.from_type(data.__class__)}"
-        for tp in expected
-    ]
+    found = _type_name(data.__class__)
+    msgs = [f"expected type {_type_name(tp)}, found {found}" for tp in expected]
     return ValidationError(msgs)
 
 
